@@ -800,7 +800,7 @@ class Doc:
 
 FAULT_KINDS = ["unknown-property", "ill-typed", "unsupported-syntax", "dynamic-attached", "read-only",
                "unknown-signal", "duplicate-binding", "duplicate-grouped", "duplicate-attached",
-               "unknown-type", "invalid-type", "unknown-attached-type", "ill-typed-pseudo"]
+               "unknown-type", "invalid-type", "unknown-attached-type", "ill-typed-pseudo", "unused-attached"]
 
 
 class Fault:
@@ -900,6 +900,28 @@ def plant_fault(rng, doc, kind):
     elif kind == "unknown-attached-type":
         o = rng.choice(objs)
         b = Binding((rng.choice(("NoSuchType", "QFoo", "Layout")), "row"), "1", "fault", attached=True)
+    elif kind == "unused-attached":
+        # an attached property that exists, bound where nobody consumes it (a column-wise setting on a vertical box item, a tab
+        # title on a widget that is no tab page, a cell on a widget outside any layout): an error in every mode, whatever the value
+        cands = []
+        for o in objs:
+            have = {x.path for x in o.bindings if isinstance(x, Binding) and x.attached}
+            pk, pc = (o.parent.kind, o.parent.cls) if o.parent is not None else (None, None)
+            opts = []
+            if pc == "QVBoxLayout":
+                opts = [("QLayout", "columnStretch"), ("QLayout", "columnMinimumWidth"), ("QLayout", "column")]
+            elif pc == "QHBoxLayout":
+                opts = [("QLayout", "rowStretch"), ("QLayout", "rowMinimumHeight"), ("QLayout", "row")]
+            elif pk != "layout" and o.kind == "widget":
+                opts = [("QLayout", "row"), ("QLayout", "columnStretch")]
+            if pc != "QTabWidget" and o.kind == "widget":
+                opts = opts + [("QTabWidget", "title"), ("QTabWidget", "toolTip")]
+            cands += [(o, pth) for pth in opts if pth not in have and not any(h[0] == pth[0] for h in have)]
+        if not cands:
+            return None
+        o, pth = rng.choice(cands)
+        src = (rng.choice(('"t"', "2", "true")) if pth[0] == "QTabWidget" else rng.choice(("1", '"2"', "1.5")))
+        b = Binding(pth, src, "fault", attached=True)
     elif kind in ("unknown-type", "invalid-type"):
         if not nonroot:
             return None
